@@ -285,6 +285,29 @@ def numerics(ctx):
                 ctx.violation("normal-form-not-symplectic:L%d" % k, "C^T J C - J = %g for L%d, mu=%r" % (res, k, mu),
                               {"pair": nm, "mu": mu, "point": k, "residual": res, "C": C.tolist()})
                 return
+            # the change of variables must bring the TRUE linearised canonical vector field at the point (Jacobian of the CR3BP field,
+            # rotated by pi into the local frame and written with momenta p_x = v_x - y, p_y = v_y + x) to the normal form
+            Rz = np.diag([-1.0, -1.0, 1.0])
+            R6 = np.block([[Rz, np.zeros((3, 3))], [np.zeros((3, 3)), Rz]])
+            Kp = np.array([[0.0, -1.0, 0.0], [1.0, 0.0, 0.0], [0.0, 0.0, 0.0]])
+            Pm = np.block([[np.eye(3), np.zeros((3, 3))], [Kp, np.eye(3)]])
+            JH = Pm @ R6 @ F @ R6 @ np.linalg.inv(Pm)
+            Mnf = np.linalg.inv(C) @ JH @ C
+            Mexp = np.zeros((6, 6))
+            if k <= 3:
+                lam_, om1_, om2_ = [float(m) for m in modes]
+                Mexp[0, 0], Mexp[3, 3] = lam_, -lam_
+                Mexp[1, 4], Mexp[4, 1] = om1_, -om1_
+                Mexp[2, 5], Mexp[5, 2] = om2_, -om2_
+            else:
+                for i_, w_ in enumerate([float(m) for m in modes]):
+                    Mexp[i_, i_ + 3], Mexp[i_ + 3, i_] = w_, -w_
+            res3 = float(np.abs(Mnf - Mexp).max() / (1 + np.abs(Mexp).max()))
+            if not res3 <= 1e-8 * max(1.0, cond):
+                ctx.violation("normal-form-vs-linearisation:L%d" % k,
+                              "C^-1 (linearised canonical field at the point) C is not the normal form of the reported modes (residual %g)" % res3,
+                              {"pair": nm, "mu": mu, "point": k, "residual": res3, "modes": [float(m) for m in modes], "C": C.tolist()})
+                return
             if k <= 3:
                 c2 = float(L.dynamics.cn(2))
                 lam, om1, om2 = [float(m) for m in modes]
